@@ -573,6 +573,7 @@ func c08Failures(run *evid.Run, evals, nontrivial *int) {
 			report(kind, "", "")
 		}
 	}
+	c08Stall(report)
 	su.Refuse.Store(true)
 	one("upstream refuses the connection", 502)
 	su.Refuse.Store(false)
